@@ -34,7 +34,9 @@ type GenCfg struct {
 	PartProb   float64 // probability per event to start a partition period
 	TieHeavy   bool
 	IndexCfg   IndexCfg
-	SpecBuilds int // if >0: issue this many speculative Builds at a few points (C04/C07 use their own drivers)
+	Sleeper    bool // the canonical-first validator alternates silent stretches with catch-up events linking to every tip
+	UseInst    *Inst // generate through this existing instance instead of a fresh one
+	Plain      bool // no consensus instance: only the DAG shape is generated (frame 1 everywhere), one epoch
 }
 
 type EpochDAG struct {
@@ -127,7 +129,12 @@ const (
 // RandomPlans draws validator sets for nEpochs epochs with seeded sealing frames and mutated sets.
 func RandomPlans(r *rand.Rand, nEpochs, maxN int, tieHeavy bool, cheat CheatMode) []*EpochPlan {
 	var plans []*EpochPlan
-	n := 1 + r.Intn(maxN)
+	n := 0
+	if maxN < 0 { // exact validator count requested
+		n, maxN = -maxN, -maxN
+	} else {
+		n = 1 + r.Intn(maxN)
+	}
 	if tieHeavy {
 		n = []int{4, 4, 6, 8, 2}[r.Intn(5)]
 		if n > maxN {
@@ -222,11 +229,20 @@ func RandomPlans(r *rand.Rand, nEpochs, maxN int, tieHeavy bool, cheat CheatMode
 
 // Generate builds the multi-epoch DAG. It returns the generator instance too (already fed with everything).
 func Generate(r *rand.Rand, cfg *GenCfg) (*DAG, *Inst, error) {
-	g := NewInst(cfg.Plans[0].Epoch, cfg.Plans[0].Validators(), cfg.Policy(), InstCfg{Index: cfg.IndexCfg})
+	var g *Inst
+	if cfg.UseInst != nil {
+		g = cfg.UseInst // continue generating through an existing instance (its current epoch must be Plans[0].Epoch)
+	} else if !cfg.Plain {
+		g = NewInst(cfg.Plans[0].Epoch, cfg.Plans[0].Validators(), cfg.Policy(), InstCfg{Index: cfg.IndexCfg})
+	}
+	seenIDs := map[hash.Event]bool{}
 	d := &DAG{Cfg: cfg}
 	for pi, plan := range cfg.Plans {
-		if g.Epoch() != plan.Epoch {
+		if g != nil && g.Epoch() != plan.Epoch {
 			break
+		}
+		if g == nil && pi > 0 {
+			break // plain DAGs have one epoch
 		}
 		ed := &EpochDAG{Plan: plan}
 		d.Epochs = append(d.Epochs, ed)
@@ -236,11 +252,37 @@ func Generate(r *rand.Rand, cfg *GenCfg) (*DAG, *Inst, error) {
 		group := make([]int, n)  // partition group of each validator
 		partLeft := 0
 		attempts := 0
+		// the sleeper is the canonical-first validator (highest weight, lowest id)
+		sleeper, sleepLeft, awakeLeft := 0, 0, 0
+		for i := range plan.IDs {
+			if plan.Weights[i] > plan.Weights[sleeper] || (plan.Weights[i] == plan.Weights[sleeper] && plan.IDs[i] < plan.IDs[sleeper]) {
+				sleeper = i
+			}
+		}
+		if cfg.Sleeper {
+			sleepLeft = 1 + r.Intn(n+1)
+		}
 		for len(ed.Events) < cfg.EventsPer && attempts < cfg.EventsPer*20 {
 			attempts++
 			c := r.Intn(n)
 			if r.Float64() < plan.Lag[c] {
 				continue
+			}
+			wake := false
+			if cfg.Sleeper && c == sleeper {
+				if sleepLeft > 0 {
+					sleepLeft--
+					continue
+				}
+				if awakeLeft == 0 {
+					wake = true // first event after a sleep: link to every tip => multi-frame jump
+					awakeLeft = 1 + r.Intn(3)
+				} else {
+					awakeLeft--
+					if awakeLeft == 0 {
+						sleepLeft = 2 + r.Intn(3*n+2)
+					}
+				}
 			}
 			if partLeft > 0 {
 				partLeft--
@@ -287,6 +329,9 @@ func Generate(r *rand.Rand, cfg *GenCfg) (*DAG, *Inst, error) {
 			if cfg.MaxParents > cfg.MinParents {
 				k += r.Intn(cfg.MaxParents - cfg.MinParents)
 			}
+			if wake {
+				k = n
+			}
 			for _, o := range r.Perm(n) {
 				if k <= 0 {
 					break
@@ -314,6 +359,29 @@ func Generate(r *rand.Rand, cfg *GenCfg) (*DAG, *Inst, error) {
 			e.SetParents(parents)
 			e.SetLamport(lam + 1)
 			e.Name = fmt.Sprintf("e%d.%c%03d", plan.Epoch, 'a'+c%26, len(own[c]))
+			if g == nil {
+				e.SetFrame(1)
+				e.SetHashID(0)
+				if seenIDs[e.ID()] {
+					continue
+				}
+				seenIDs[e.ID()] = true
+				ed.Events = append(ed.Events, e)
+				own[c] = append(own[c], e)
+				if forked {
+					d.Forks++
+				}
+				if sp != nil && !forked {
+					for i, x := range tips[c] {
+						if x == sp {
+							tips[c] = append(tips[c][:i], tips[c][i+1:]...)
+							break
+						}
+					}
+				}
+				tips[c] = append(tips[c], e)
+				continue
+			}
 			if err := g.Build(e); err != nil {
 				return nil, nil, fmt.Errorf("generator Build failed: %v", err)
 			}
